@@ -110,7 +110,7 @@ prop('C06',
                   'A-scratch: the per-node scratch memo read by cond_helper is modelled as empty (nothing in the crate stores a BddPtr there; its set_scratch line is commented out)',
                   'A-unsafe: the unique table of StandardDecisionNNFBuilder returns a reference to a node equal to its argument (proved for the real table in unit `table`)',
                   'A-lit-iter: in unit dnnf the `impl Iterator<Item = Literal>` parameter of conjoin_implied is the trusted container LitIter; verif_lits_vec stands for draining it; Literal is the two-field stub of A-lit',
-                  'A-sat (assumed contract of a dependency, trusted/sat_stub.rs): SATSolver is an opaque stub -- a stack of partial models; decide either reports UNSAT (no assignment extending the model and the literal satisfies the formula) and leaves the stack alone, or pushes a model extending the top one by the literal and by literals ENTAILED by the formula (SAT: every extension satisfies the formula); a model that assigns every variable satisfies the formula; pop removes the top model; difference_iter() yields exactly the new assignments; SATSolver::new returns None iff a conflict at the start, else the stack [empty model, entailed literals].  Nothing of src/repr/unit_prop.rs is verified (C09 not applicable)',
+                  'A-sat (assumed contract of a dependency, trusted/sat_stub.rs): SATSolver is an opaque stub -- a stack of partial models; decide either reports UNSAT (no assignment extending the model and the literal satisfies the formula) and leaves the stack alone, or pushes a model extending the top one by the literal and by literals ENTAILED by the formula (SAT: every extension satisfies the formula); a model that assigns every variable satisfies the formula; pop removes the top model; difference_iter() yields exactly the new assignments; SATSolver::new returns None iff a conflict at the start, else the stack [empty model, entailed literals].  Of this interface the STACK SHAPE (decide pushes one frame or none on UNSAT, pop removes the top frame, observers read the top frame) is proved for the real SATSolver in unit satstack (C09); the semantic half (entailment, UNSAT only when no model extends, the residual hash) is unverified and has the bounded check `unitprop` (C09) besides `dnnf`',
                   'A-reshash: component caching is assumed sound -- two solver states with equal 128-bit residual hashes are interchangeable for diagram validity (on the real code: the prime-product hash identifies the residual formula and diagrams mention residual variables only); FxHashMap is the weak stub of A-fxhashmap; Cnf is the stub of A-cnf-stub with an uninterpreted truth function csem_of(id, env)'],
      replay='dnnf',
      explanation='last sentence of the property: DecisionNNFBuilder::cond_helper / TopDownBuilder::condition carry  forall env. ptr_sem(r, env) == ptr_sem(bdd, upd(env, lbl, value))  '
